@@ -240,6 +240,11 @@ def run(ctx):
     for f in (iqc, icp, ihp, ipo, itp, iun, cr):
         r_effect_free(ctx, f, ["phi"])
 
+    # Counting Kraus operators (is_unitary: exactly one; is_extremal: rank == r^2, Choi's criterion) presupposes a LINEARLY INDEPENDENT family.
+    # A caller's list may repeat an operator or carry zero operators ([X/sqrt2, X/sqrt2] is the unitary channel X . X; amplitude_damping()
+    # returns [k0, k1, 0, 0]); the family that is counted has to come out of choi_to_kraus (a minimal family) on every path.
+    _minimal_family(ctx, iu, "phi")
+    _minimal_family(ctx, iex, "kraus_ops")
     # is_unitary (channel): unique Kraus operator which is a unitary matrix
     rets, N = return_terms(m, iu, inline=False)
     last = rets[-1][2] if rets else None
@@ -483,3 +488,32 @@ def _input_2x2(ctx, f):
             if "shape" in repr(t) and "('tuple', ('c', 2), ('c', 2))" in repr(t) and "!=" in repr(t):
                 ok = True
     ctx.ob("R-GUARD", f, "input must be 2x2", ok, "non-2x2 inputs are rejected" if ok else "2x2 input check missing")
+
+
+def _minimal_family(ctx, f, name):
+    m = ctx.model
+    key = f"the operators that are counted (`{name}`) form a minimal family (from choi_to_kraus) on every path"
+    defs = [n for n in walk_no_nested(f.node) if isinstance(n, ast.Assign) and len(n.targets) == 1 and isinstance(n.targets[0], ast.Name) and n.targets[0].id == name]
+    def from_c2k(v):
+        return isinstance(v, ast.Call) and (m.resolve_call(f, v).key or "").endswith("choi_to_kraus.choi_to_kraus")
+    raw = [d for d in defs if not from_c2k(d.value)]
+    is_param = f.param(name) is not None
+    if is_param:
+        # a parameter: some re-binding through choi_to_kraus must not be confined to the Choi-matrix (ndarray) case
+        par_ok = False
+        for d in defs:
+            if from_c2k(d.value):
+                anc = [n for n in walk_no_nested(f.node) if isinstance(n, ast.If) and any(x is d for x in ast.walk(n))]
+                if not any("isinstance" in unparse(a.test) and "ndarray" in unparse(a.test) for a in anc):
+                    par_ok = True
+        ok = par_ok and not raw
+        where = next((d for d in defs if from_c2k(d.value)), None)
+        ctx.ob("R-KIND", f, key, ok, "every representation is reduced before the count" if ok else
+               f"only a Choi matrix is converted with choi_to_kraus; a Kraus LIST is counted as given: {f.name}([X/sqrt(2), X/sqrt(2)]) sees two operators and answers False for the "
+               "unitary channel X . X, while the Choi matrix of the same map gives True", where)
+    else:
+        ok = bool(defs) and not raw
+        ctx.ob("R-KIND", f, key, ok, "every representation is reduced before the count" if ok else
+               f"`{unparse(raw[0])[:60]}` (line {raw[0].lineno}) takes the caller's list as it is: linearly dependent or zero Kraus operators (amplitude_damping() returns [k0, k1, 0, 0]; "
+               "[I/sqrt(2), I/sqrt(2)] is the identity channel) make the r^2 products dependent, so an extremal map is reported as not extremal -- its Choi matrix gives True",
+               raw[0] if raw else None)
